@@ -1335,7 +1335,11 @@ fn read_raw_with_header(is_bam: bool, bytes: &[u8]) -> (Result<String, Stop>, us
         if is_bam {
             let mut r = bam::io::Reader::from(bytes);
             let h = r.read_header()?;
-            hdr = Ok(render(&h));
+            // canonical text of a header = what the text writer prints for it (the Debug
+            // rendering walks hash maps whose order differs between two instances)
+            let mut t = Vec::new();
+            sam::io::Writer::new(&mut t).write_header(&h)?;
+            hdr = Ok(hex(&t));
             let mut rec = bam::Record::default();
             while r.read_record(&mut rec)? != 0 {
                 n += 1;
@@ -1343,7 +1347,9 @@ fn read_raw_with_header(is_bam: bool, bytes: &[u8]) -> (Result<String, Stop>, us
         } else {
             let mut r = bcf::io::Reader::from(bytes);
             let h = r.read_header()?;
-            hdr = Ok(render(&h));
+            let mut t = Vec::new();
+            vcf::io::Writer::new(&mut t).write_header(&h)?;
+            hdr = Ok(hex(&t));
             let mut rec = bcf::Record::default();
             while r.read_record(&mut rec)? != 0 {
                 n += 1;
